@@ -530,8 +530,9 @@ psSize_t tls13ParseSupportedVersions(ssl_t *ssl,
     }
     dataLen = *p; p++;
     len--;
-    if (dataLen != len)
+    if (dataLen != len || (len & 1))
     {
+        /* versions<2..254> is a list of 2-octet ProtocolVersions */
         psTraceErrr("Malformed supported_versions extension\n");
         goto out_decode_error;
     }
